@@ -847,6 +847,8 @@ def _r5_unknown(model: Model, run: Run) -> None:
     cont = bool(tail) and (
         (isinstance(tail[-1], ast.Return) and isinstance(tail[-1].value, ast.Call) and model.call_matches(mod, tail[-1].value, 'AttributeCollection.parse'))
         or isinstance(tail[-1], ast.Continue)
+        # the last statements of the loop body: falling off them is the next turn of the loop
+        or (isinstance(b[0], (ast.While, ast.For)) and b[1] == 'body' and not any(isinstance(n, (ast.Break, ast.Return)) for st in tail for n in walk_no_nested(st)))
     )
     run.check(
         not bad and cont,
@@ -1053,22 +1055,35 @@ def _reader_functions(model: Model, cg: CallGraph, dec: set[str]) -> tuple[set[s
     for _ in range(4):
         f |= {q for q, v in cg.edges.items() if v & f and q in model.funcs and (q.startswith('exabgp.reactor.peer.peer.') or q.startswith('exabgp.reactor.protocol.'))}
     f1 = set(f)
-    for q in f:
-        fi = model.funcs[q]
-        for c in walk_no_nested(fi.node):
-            if isinstance(c, ast.Call):
-                for a in c.args:
-                    t = model.type_of(fi.module, a)
-                    if t.endswith('message.Message') or t.endswith('message.Message | None') or any(k in model.classes and model.is_subclass(k, 'exabgp.bgp.message.message.Message') for k in model.type_classes(fi.module, a)):
-                        f1 |= {t2 for t2 in model.callees_cha(fi.module, c) if t2 in model.funcs and t2.startswith('exabgp.')}
-    # what a function that was handed the message calls on its own object (Negotiated.received -> _negotiate)
-    for q in list(f1 - f):
-        fi = model.funcs[q]
-        if fi.cls is None:
-            continue
-        for c in walk_no_nested(fi.node):
-            if isinstance(c, ast.Call) and isinstance(c.func, ast.Attribute) and dotted(c.func.value) == 'self':
-                f1 |= {t for t in model.callees_cha(fi.module, c) if t in model.funcs and t.rsplit('.', 1)[0] == q.rsplit('.', 1)[0]}
+
+    def handed_on(qs) -> set[str]:  # noqa: ANN001
+        out: set[str] = set()
+        for q in qs:
+            fi = model.funcs[q]
+            for c in walk_no_nested(fi.node):
+                if isinstance(c, ast.Call):
+                    for a in c.args:
+                        t = model.type_of(fi.module, a)
+                        if t.endswith('message.Message') or t.endswith('message.Message | None') or any(k in model.classes and model.is_subclass(k, 'exabgp.bgp.message.message.Message') for k in model.type_classes(fi.module, a)):
+                            out |= {t2 for t2 in model.callees_cha(fi.module, c) if t2 in model.funcs and t2.startswith('exabgp.')}
+        return out
+
+    f1 |= handed_on(f)
+    # what a function that was handed the message calls on its own object (Negotiated.received -> _negotiate), and what
+    # those hand the message on to (RequirePath.setup(received_open, sent_open)), not into the decoders
+    for _ in range(2):
+        new = set()
+        for q in list(f1 - f):
+            fi = model.funcs[q]
+            if fi.cls is None:
+                continue
+            for c in walk_no_nested(fi.node):
+                if isinstance(c, ast.Call) and isinstance(c.func, ast.Attribute) and dotted(c.func.value) == 'self':
+                    new |= {t for t in model.callees_cha(fi.module, c) if t in model.funcs and t.rsplit('.', 1)[0] == q.rsplit('.', 1)[0]}
+        new |= {t for t in handed_on(f1 - f) if t not in dec}
+        if new <= f1:
+            break
+        f1 |= new
     return f, f1
 
 
@@ -1086,6 +1101,53 @@ def _resolve_cls(model: Model, mod, name: str) -> str | None:
     last = name.rsplit('.', 1)[-1]
     cands = [q for q in model.classes if q.endswith('.' + last) and model.is_subclass(q, MESSAGE_BASE)]
     return cands[0] if len(cands) == 1 else None
+
+
+def _key_from_constant_arguments(model: Model, cg: CallGraph, f: FuncInfo, key: ast.AST) -> str | None:
+    """the key reads nothing but parameters of the function, and every call of the function in the program passes literals
+    for them ('send' / 'receive'): it is one of a few constant keys, not something computed from the peer's message"""
+    params = [a.arg for a in f.node.args.posonlyargs + f.node.args.args]
+    names = {n.id for n in ast.walk(key) if isinstance(n, ast.Name)}
+    if not names or not names <= set(params) or names & {'self', 'cls'}:
+        return None
+    offset = 1 if f.cls is not None and params and params[0] in ('self', 'cls') else 0
+    sites = 0
+    for cq, outs in cg.edges.items():
+        if f.qualname not in outs or cq not in model.funcs:
+            continue
+        cf = model.funcs[cq]
+        for c in walk_no_nested(cf.node):
+            if not (isinstance(c, ast.Call) and f.qualname in model.callees_cha(cf.module, c)):
+                continue
+            for nm in names:
+                i = params.index(nm) - offset
+                arg = c.args[i] if 0 <= i < len(c.args) else next((k.value for k in c.keywords if k.arg == nm), None)
+                if not isinstance(arg, ast.Constant):
+                    return None
+            sites += 1
+    return 'the key is built from %s, a literal at each of the %d call sites' % (sorted(names), sites) if sites else None
+
+
+def _dict_by_default(model: Model, f: FuncInfo, e: ast.AST) -> bool:
+    """an untyped local bound once to `<mapping>.get(key, <default>)` whose default is a dict (a literal, dict(), an
+    instance of a dict subclass): whatever the mapping holds under that key is used as a dict"""
+    if not isinstance(e, ast.Name):
+        return False
+    v = Loc(model, f).single(e.id)
+    if not (isinstance(v, ast.Call) and isinstance(v.func, ast.Attribute) and v.func.attr == 'get' and len(v.args) == 2):
+        return False
+    d = v.args[1]
+    if isinstance(d, ast.Dict):
+        return True
+    if isinstance(d, ast.Call) and isinstance(d.func, ast.Name):
+        if d.func.id == 'dict':
+            return True
+        for n in ast.walk(f.node):
+            if isinstance(n, ast.ClassDef) and n.name == d.func.id and any('dict' in norm(b).lower() for b in n.bases):
+                return True
+        ci = f.module.classes.get(d.func.id)
+        return bool(ci and 'builtins.dict' in ci.mro)
+    return False
 
 
 def _is_dict_type(model: Model, ty: str) -> bool:
@@ -1205,13 +1267,15 @@ def _r10_r11_readers(model: Model, run: Run, cg: CallGraph, dec: set[str]) -> No
             reads = isinstance(sub.ctx, ast.Load) or (isinstance(par, ast.AugAssign) and par.target is sub)
             if not reads:
                 continue
-            if not _is_dict_type(model, model.type_of(f.module, sub.value)):
+            if not (_is_dict_type(model, model.type_of(f.module, sub.value)) or _dict_by_default(model, f, sub.value)):
                 continue
             n10 += 1
             d = dotted(sub.value) or norm(sub.value)
             why = _lookup_guard(f, sub, d, pm)
             if why is None:
                 why = _registry_covers(model, f, sub)
+            if why is None:
+                why = _key_from_constant_arguments(model, cg, f, sub.slice)
             if why is None and (short(q), d) in R10_TRIAGED:
                 why = 'triaged: ' + R10_TRIAGED[(short(q), d)]
             inst = '%s: %s' % (short(q), norm(sub)[:50])
